@@ -113,8 +113,12 @@ func voucherAtoms() ([]AtomDef, []Derivation) {
 					return false
 				}
 				a, b := m.Prov(args[0]), m.Prov(args[1])
-				mfg := func(s ProvSet) bool { return s.Has("field:fdo.VoucherHeader.ManufacturerKey") && s.Has("call:fdo/protocol.PublicKey.Public") }
-				next := func(s ProvSet) bool { return s.Has("call:fdo/protocol.NewPublicKey") && s.Has("call:fdo/protocol.PublicKey.Public") }
+				mfg := func(s ProvSet) bool {
+					return s.Has("field:fdo.VoucherHeader.ManufacturerKey") && s.Has("call:fdo/protocol.PublicKey.Public")
+				}
+				next := func(s ProvSet) bool {
+					return s.Has("call:fdo/protocol.NewPublicKey") && s.Has("call:fdo/protocol.PublicKey.Public")
+				}
 				return (mfg(a) && next(b)) || (mfg(b) && next(a))
 			}),
 		errNil("ext-signed", "the new entry was signed with the signer argument (Sign1.Sign err==nil)", named("fdo/cose.Sign1.Sign"),
